@@ -74,6 +74,11 @@ impl Report {
         self.violations.push(Violation { kind: kind.to_string(), what, case });
     }
 
+    /// enough violations collected: the generators stop early (a broken build can make every case slow)
+    pub fn saturated(&self) -> bool {
+        self.violations.len() >= 300
+    }
+
     pub fn write(&self, dir: &str) -> std::io::Result<()> {
         std::fs::create_dir_all(dir)?;
         let mut f = std::io::BufWriter::new(std::fs::File::create(format!("{}/req.txt", dir))?);
